@@ -611,7 +611,7 @@ func verifAtoi(s string, def int) int {
 }
 
 // VerifNewWorld builds the session and adds the torrent (stopped).
-// op: new pl=<n> files=<len>:<pad>,... [seq=1] [private=1] [magnet=1] [seed=<n>] [cfg.<Key>=<int>…]
+// op: new pl=<n> files=<len>:<pad>,... [seq=1] [private=1] [magnet=1] [seed=<n>] [badpadhash=1|2] [cfg.<Key>=<int>…]
 func VerifNewWorld(op string) (*VerifWorld, string) {
 	_, m := verifKV(op)
 	w := &VerifWorld{peers: map[int]*verifPeer{}, sto: newVerifStorage()}
@@ -651,6 +651,26 @@ func VerifNewWorld(op string) (*VerifWorld, string) {
 		w.hashes = append(w.hashes, h[:])
 	}
 	w.nPieces = len(w.hashes)
+	// badpadhash=1: the creator of the torrent recorded a wrong SHA-1 for every piece that lies entirely inside
+	// padding files (BEP 47); badpadhash=2: for the first such piece only. Ignored when a file has length 0.
+	if mode := verifAtoi(m["badpadhash"], 0); mode > 0 {
+		zero := false
+		for _, l := range w.flens {
+			if l == 0 {
+				zero = true
+			}
+		}
+		for i := 0; i < w.nPieces && !zero; i++ {
+			if !w.paddingOnly(i) {
+				continue
+			}
+			pieces[i*20] ^= 0xff
+			w.hashes[i] = pieces[i*20 : i*20+20]
+			if mode == 2 {
+				break
+			}
+		}
+	}
 	w.sto.truth = func(name string, off int64, p []byte) bool {
 		pos := 0
 		for i, l := range w.flens {
@@ -2079,6 +2099,23 @@ func (w *VerifWorld) reloadCheck() string {
 		return "-"
 	}
 	return strings.Join(out, ",")
+}
+
+// paddingOnly: every byte of piece i belongs to a padding file.
+func (w *VerifWorld) paddingOnly(i int) bool {
+	start, end := i*w.pl, (i+1)*w.pl
+	if end > len(w.content) {
+		end = len(w.content)
+	}
+	pos := 0
+	for fi, l := range w.flens {
+		fs, fe := pos, pos+l
+		pos = fe
+		if max(fs, start) < min(fe, end) && !w.fpads[fi] {
+			return false
+		}
+	}
+	return true
 }
 
 // pieceOnDisk: the non-padding bytes of piece i in sto are the true bytes.
